@@ -7,7 +7,7 @@ LEVEL = "proof"
 MANIFEST = {
     "technique": "Coq proof over hand-written Gallina models with explicit panic / cost semantics (FixedSliceReader, box headers, "
                  "both container child loops, the file-assembly state machine over box shapes, the count-guard-then-allocate prologues "
-                 "of 27 table-box decoders) + differential correspondence (extracted OCaml vs Go: outcome class, grouping, decoded entry "
+                 "of 29 table-box decoders) + differential correspondence (extracted OCaml vs Go: outcome class, grouping, decoded entry "
                  "count, allocation bucket) + structured mutation fuzzing and count/length-field inflation in an isolated worker process",
     "level_text": "PROVED for all inputs (coq/c04/C04Theorems.v): every bits.FixedSliceReader method keeps 0 <= pos <= len and never "
                   "panics under the stated caller guards (with machine-checked refutations for negative lengths, SkipBytes overflow, "
@@ -19,7 +19,7 @@ MANIFEST = {
                   "options, for the REPAIRED text; the pinned text is refuted at 9 sites by concrete shape lists; the prologues (size guard "
                   "expectedSize / remaining bytes, per-entry size as a function of version and flags, make([]T, n) with its element size, "
                   "entry loop with the accumulated-error reader) of trun stts ctts stsc stsz stco co64 stss sdtp saiz saio senc sbgp subs elst tfra "
-                  "sidx pssh ssix tref-type leva uuid(tfxd/tfrf/piff-senc/other) ftyp styp hvcC (array / NALU loops), both phases of senc (DecodeSenc/SR guard, then ParseReadBox/parseAndFillSamples: <= 72*len+360 bytes) and the whole sgpd entry loop (seig/roll/rap/alst/other) return for EVERY header and body, request at most a*size+b bytes and loop at "
+                  "sidx pssh ssix tref-type leva uuid(tfxd/tfrf/piff-senc/other) ftyp styp hvcC avcC (array / NALU loops) tlou/alou, both phases of senc (DecodeSenc/SR guard, then ParseReadBox/parseAndFillSamples: <= 72*len+360 bytes) and the whole sgpd entry loop (seig/roll/rap/alst/other) return for EVERY header and body, request at most a*size+b bytes and loop at "
                   "most size/entry+c times (C04_alloc_<box>; box level on both paths: <= 172*len+1048560 bytes (sgpd's factor; <= 12*len for the others), <= 6*len+65536 iterations for "
                   "every byte string below 32 GiB), with machine-checked refutations for the pinned sgpd/alst text (4 GiB from 28 bytes, "
                   "repaired) and for ctts at exactly 32 GiB (uint32 wrap of entryCount+1, not reproducible). "
@@ -62,7 +62,7 @@ def run(ctx):
         "DecodeHeaderSR/DecodeBoxSR, mp4/container.go both child loops) and coq/c04/C04AsmModel.v (mp4/file.go, boxsr.go file loops, "
         "traf.go ParseReadSenc, moof.go/fragment.go/mediasegment.go/initsegment.go Encode, Info traversal) are hand transcriptions",
         "model: coq/c04/C04AllocModel.v (prologues of mp4/trun.go stts.go ctts.go stsc.go stsz.go stco.go co64.go stss.go sdtp.go saiz.go "
-        "saio.go senc.go sbgp.go subs.go elst.go tfra.go sidx.go pssh.go ssix.go tref.go leva.go uuid.go ftyp.go styp.go sgpd.go samplegroupentries.go hvcc.go, hevc/hevcdecoderconfigurationrecord.go) hand transcription; "
+        "saio.go senc.go sbgp.go subs.go elst.go tfra.go sidx.go pssh.go ssix.go tref.go leva.go uuid.go ftyp.go styp.go sgpd.go samplegroupentries.go hvcc.go avcc.go lou.go, hevc/hevcdecoderconfigurationrecord.go avc/avcdecoderconfigurationrecord.go) hand transcription; "
         "element sizes are Go 64-bit struct layouts",
         "harness/c04: shape renderer (minimal valid boxes with chosen pointers absent / counts zero), worker isolation, budgets",
     ]
@@ -99,7 +99,7 @@ def run(ctx):
                               "with truncation / size-field / large-size corruption, both decode paths; A: all shape lists up to the given length "
                               "over 29 letters x decode options (reader/SR x normal/lazy x flags none/ISM/start-on-moof) + random longer lists, "
                               "observables: outcome class, grouping, StartPos, Info x3, Encode/EncodeSW x2 modes; C: count/length-field inflation of "
-                              "the 27 modelled table boxes (every version/flags variant x field x 12 values, compact/large header, trailing "
+                              "the 29 modelled table boxes (every version/flags variant x field x 12 values, compact/large header, trailing "
                               "bytes, 0..3 and 16384 real entries) + random corruption of those, each on both paths; observables: outcome class, "
                               "decoded entry count, log2 bucket of the bytes allocated; Q: every senc case x perSampleIVSize 0/8/16/1 x both paths "
                               "through decode then ParseReadBox: both classes, len(IVs), len(SubSamples), allocation bucket",
